@@ -1,7 +1,7 @@
 #!/bin/bash
-# usage: confirm_seed.sh <PID> <worktree>  -- confirm a seeded change myself: suite green with it, demo red with it, green without
+# usage: confirm_seed.sh <PID> <worktree> [dir-name, default PID]  -- confirm a seeded change myself: suite green with it, demo red with it, green without
 pid="$1"; wt="$2"; export RUST_BACKTRACE=0 CARGO_NET_OFFLINE=true
-out=/verif/seeded/$pid; mkdir -p $out
+name="${3:-$1}"; out=/verif/seeded/$name; mkdir -p $out
 cp $wt/OUT/patch.diff $out/patch.diff; rm -rf $out/demo; cp -r $wt/OUT/demo $out/demo; cp $wt/OUT/meta.json $out/agent_meta.json
 cd $wt || exit 2
 git diff > /tmp/confirm_$pid.diff; if ! diff -q /tmp/confirm_$pid.diff $out/patch.diff >/dev/null; then echo "worktree diff != patch.diff"; fi
@@ -9,13 +9,13 @@ suite=$(cargo test --workspace --no-fail-fast --offline 2>&1 | grep -E "^test re
 bash $out/demo/demo.sh $wt > /tmp/confirm_${pid}_mod.log 2>&1; rc_mod=$?
 bash $out/demo/demo.sh /repo > /tmp/confirm_${pid}_orig.log 2>&1; rc_orig=$?
 echo "$pid suite_with_change: $suite ; demo_with_change_exit=$rc_mod ; demo_without_exit=$rc_orig"
-python3 - "$pid" "$suite" "$rc_mod" "$rc_orig" <<'PY'
+python3 - "$pid" "$suite" "$rc_mod" "$rc_orig" "$name" <<'PY'
 import json, sys
-pid, suite, rc_mod, rc_orig = sys.argv[1:5]
-am = json.load(open('/verif/seeded/%s/agent_meta.json' % pid))
+pid, suite, rc_mod, rc_orig, name = sys.argv[1:6]
+am = json.load(open('/verif/seeded/%s/agent_meta.json' % name))
 meta = {"property": pid, "breaks": am.get("summary"), "needs_to_manifest": am.get("needs_to_manifest"),
         "confirmed_by_me": {"suite_with_change": suite, "demo_exit_with_change": int(rc_mod), "demo_exit_without_change": int(rc_orig),
                             "commands": ["cd <worktree with patch> && cargo test --workspace --no-fail-fast --offline", "bash demo/demo.sh <worktree with patch>", "bash demo/demo.sh /repo"]},
         "agent_ran": am.get("ran"), "caught_by": []}
-json.dump(meta, open('/verif/seeded/%s/meta.json' % pid, 'w'), indent=1)
+json.dump(meta, open('/verif/seeded/%s/meta.json' % name, 'w'), indent=1)
 PY
